@@ -805,6 +805,10 @@ func (tic *TermInCommittee) HandleNewView(nvm *interfaces.NewViewMessage) {
 				tic.logger.Info("LHMSG RECEIVED NEW_VIEW IGNORE - NewView.ViewChangeConfirmation (with latest view) is invalid")
 				return
 			}
+			if !ppMessageContent.SignedHeader().BlockHash().Equal(latestVoteBlockHash) {
+				tic.logger.Info("LHMSG RECEIVED NEW_VIEW IGNORE - NewView.Preprepare.BlockHash is not the block hash of the latest prepared proof")
+				return
+			}
 		}
 	}
 
